@@ -71,6 +71,7 @@ pub fn summarise(evs: &[J]) -> (Vec<J>, u64) {
                 let ok = ev["res"] == "ok";
                 let mut fin = false;
                 let mut div = false;
+                let mut badstats: Vec<String> = vec![];
                 if ok {
                     let logp_fin = ev["stats"]
                         .as_array()
@@ -79,9 +80,28 @@ pub fn summarise(evs: &[J]) -> (Vec<J>, u64) {
                         .unwrap_or(false);
                     fin = ev["finite"] == true && logp_fin;
                     div = ev["progress"]["diverging"] == true;
+                    // a valid draw also has usable sampler statistics: the step size in force and the acceptance
+                    // statistics that drive its adaptation are finite (a NaN here poisons every later draw)
+                    if let Some(a) = ev["stats"].as_array() {
+                        for s in a {
+                            let name = s[0].as_str().unwrap_or("");
+                            if matches!(name, "step_size" | "mean_tree_accept" | "mean_tree_accept_sym" | "energy" | "n_steps")
+                                && s[1]["t"] == "f64" && s[1]["fin"] == false
+                            {
+                                badstats.push(name.to_string());
+                            }
+                        }
+                    }
+                    let ss = ev["progress"]["step_size_f"].as_f64();
+                    if !ss.map(|x| x > 0.0).unwrap_or(false) {
+                        badstats.push("progress.step_size".to_string());
+                    }
+                    if ev["progress"]["num_steps"].as_u64() == Some(0) {
+                        badstats.push("progress.num_steps=0".to_string());
+                    }
                 }
                 calls.push(json!({"e": "draw", "n": ev["n"], "res": ev["res"], "div": div, "fin": fin,
-                    "faults": cur_faults}));
+                    "badstats": badstats, "faults": cur_faults}));
                 cur_faults = vec![];
                 in_traj = false;
             }
